@@ -91,16 +91,38 @@ func runPoseBackpressure(t *testing.T, c poseBpCase) (viol string, queued int) {
 			inconclusive = true
 			return
 		}
-		// wait until nothing arrives any more (bounded)
-		stable, lastN := 0, -1
-		for i := 0; i < 1000 && stable < 12; i++ {
+		// wait (bounded) until both observers hold the most recent pose of every entity - not for a
+		// fixed time: the machine may be busy - then a little longer for anything that should NOT come
+		caughtUp := func() bool {
+			for _, obs := range []int{R, B} {
+				seen := map[uint32]float32{}
+				for _, rx := range w.Inbox(obs) {
+					if pb, ok := rx.M.(*hagallpb.EntityUpdatePoseBroadcast); ok {
+						seen[pb.EntityId] = pb.Pose.GetPx()
+					}
+				}
+				for _, eid := range eids {
+					if seen[eid] != last {
+						return false
+					}
+				}
+			}
+			return true
+		}
+		deadline := time.Now().Add(30 * time.Second)
+		for !caughtUp() && time.Now().Before(deadline) {
 			time.Sleep(5 * time.Millisecond)
-			if n := len(w.Inbox(R)) + len(w.Inbox(B)); n == lastN {
-				stable++
-			} else {
-				stable, lastN = 0, n
+		}
+		if !caughtUp() {
+			// not relayed - or is the machine just slow? the owner's connection must answer a ping promptly
+			t0 := time.Now()
+			w.Send(O, &hagallpb.Request{Type: TPingReq, Timestamp: ts(), RequestId: 99999})
+			if _, ok := waitInbox(w.conns[O], 99999, 10*time.Second, TPingResp); !ok || time.Since(t0) > time.Second {
+				inconclusive = true
+				return
 			}
 		}
+		time.Sleep(60 * time.Millisecond)
 		if p := w.Panics(); len(p) > 0 {
 			viol = "server code panicked: " + p[0]
 			return
@@ -146,6 +168,24 @@ func (w *WWorld) shutdownReal() {
 		}
 		c.mu.Unlock()
 		c.ws.Close()
+	}
+	// let every connection leave through its normal path before the server context is cancelled:
+	// a cancelled context ends the connection loops WITHOUT the disconnect handling, the frame
+	// callbacks stay registered and the frame worker then writes to a closed dispatcher queue
+	// (a crash on server shutdown - not a client behaviour, and not what this test is about)
+	running := func() bool {
+		for _, c := range w.all {
+			c.mu.Lock()
+			r := c.entered && !c.returned
+			c.mu.Unlock()
+			if r {
+				return true
+			}
+		}
+		return false
+	}
+	for until := time.Now().Add(20 * time.Second); time.Now().Before(until) && running(); {
+		time.Sleep(5 * time.Millisecond)
 	}
 	w.cancel()
 	w.srv.Close()
